@@ -178,7 +178,13 @@ fn check_spline<T: Comp>(n: usize, seed: usize, r: &mut Report) {
         r.eval();
         let thr_s = thr * scale as f32;
         let halt = |d: &T::Diff| T::dcomps(d).iter().all(|x| if signed { *x <= thr_s as f64 } else { x.abs() <= thr_s as f64 });
-        let out = match caught(|| s.approximate(halt)) { Ok(o) => o, Err(p) => { r.violation(key("approx-panic", thr), format!("approximate panicked: {p}"), obj! {"kind" => "approx", "type" => T::NAME, "n" => n, "seed" => seed, "thr" => ti}); continue; } };
+        // termination: a bisection tree of depth 10+log2(len) asks the criterion at most once per internal node,
+        // i.e. fewer than 2^(depth+1) times; a call beyond that budget is reported as non-termination (the
+        // counting wrapper panics, which unwinds out of the library call) instead of waiting for the wall cap
+        let budget = 1u64 << (10 + (3 * n as u32 + 1).ilog2() + 1);
+        let asked = std::cell::Cell::new(0u64);
+        let counted = |d: &T::Diff| { asked.set(asked.get() + 1); if asked.get() > budget { panic!("criterion asked more than 2^(depth+1) = {budget} times: the recursion depth bound is not honoured (non-termination)"); } halt(d) };
+        let out = match caught(|| s.approximate(counted)) { Ok(o) => o, Err(p) => { r.violation(key("approx-panic", thr), format!("approximate panicked: {p}"), obj! {"kind" => "approx", "type" => T::NAME, "n" => n, "seed" => seed, "thr" => ti}); continue; } };
         let case = obj! {"kind" => "approx", "type" => T::NAME, "n" => n, "seed" => seed, "thr" => ti};
         let key = |cl: &str| format!("{cl}|{}|n={n}|seed={seed}|thr={thr}{}", T::NAME, if signed { "(one-sided)" } else { "" });
         if out.len() < 2 || out[0] != pts[0] || out[out.len() - 1] != pts[3 * n] {
@@ -456,8 +462,34 @@ fn check_polar_first(rr: f32, azd: f32, altd: f32, r: &mut Report) {
     if p.r() != rr || p.az().to_rads() != degs(azd).to_rads() { r.violation(key("polar-accessors"), "r()/az() do not return the constructor arguments".into(), case()); }
 }
 
+// unit conversions over every binade: each of the three constructors crossed with each of the three getters, for
+// magnitudes 2^-120 .. 2^127 (three mantissas, both signs). A result is judged whenever the ideal stored radians and
+// the ideal result are both normal floats: an intermediate in another unit may not overflow or underflow on the way.
+fn check_unit_extreme(i: u64, r: &mut Report) {
+    let (e, mi, neg) = ((i / 6) as i32 - 120, (i % 6) / 2, i % 2 == 1);
+    let x = [1.0f32, 1.37, 1.9999999][mi as usize] * 2f32.powi(e) * if neg { -1.0 } else { 1.0 };
+    const UNITS: [(&str, f64); 3] = [("rads", 1.0), ("degs", std::f64::consts::PI / 180.0), ("turns", std::f64::consts::TAU)];
+    let normal = |v: f64| v.abs() >= 1.2e-38 && v.abs() <= 3.4e38;
+    for (ci, (cn, cu)) in UNITS.iter().enumerate() {
+        let stored = x as f64 * cu;
+        if !normal(stored) { continue; }
+        let a = match ci { 0 => rads(x), 1 => degs(x), _ => turns(x) };
+        for (gi, (gn, gu)) in UNITS.iter().enumerate() {
+            let want = stored / gu;
+            if !normal(want) { continue; }
+            r.eval();
+            let got = match gi { 0 => a.to_rads(), 1 => a.to_degs(), _ => a.to_turns() } as f64;
+            let err = (got - want).abs() / want.abs();
+            if !(err <= 1e-6) {
+                r.violation(format!("unit-conversion|extreme|{cn}->{gn}|x={x:e}"), format!("{cn}({x:e}).to_{gn}() = {got:e}, expected {want:e} (both representable)"), obj! {"kind" => "unitx", "i" => i});
+            } else { r.margin("unit-extreme", err, 1e-6); r.nontrivial(); }
+        }
+    }
+}
+
 fn run_angle(cfg: &Cfg) -> ! {
     let mut rep = Report::new();
+    rep.merge(par_range(cfg, 248 * 6, check_unit_extreme));
     // (thorough: +-417 turns in 7.5-degree steps; +-2 turns in 0.005-degree steps)
     let ka: i64 = if cfg.quick() { 492 } else { 20_000 };
     rep.merge(par_range(cfg, (2 * ka + 1) as u64, |i, r| check_angle((i as i64 - ka) as i32, r)));
@@ -525,7 +557,7 @@ fn run_angle(cfg: &Cfg) -> ! {
     let _: Angle = Angle::ZERO;
     rep.sample(0, || obj! {"angle_deg" => -1500.0, "wrap_interval_turns" => vec![0.0, 1.0], "vec2" => vec![-2e-7, 2e-7], "vec3" => vec![0.0, -5e-7, 0.0]});
     rep.finish(cfg, "exploration",
-        "angles k*7.5 deg for |k|<=492 (+-10 turns; thorough |k|<=20000, +-417 turns, and +-2 turns in 0.005-degree steps; vector lattices 201^2 and 61^3 per magnitude; polar/spherical on a 0.9-degree grid) with +-1 ulp neighbours and {1e-6, 1e4, 1e6, 1e30, 2e36, 5e36, ...} rad: unit conversions in all directions, sin/cos/sin_cos, operators/clamp/min/max on the magnitude, wrap into 7 intervals x 3 unit spellings (in range without slack, congruent), also for 600 000 (thorough 6 000 000) inputs 80 .. 16 000 revolutions away; Affine/Linear/Lerp trait entry points on angles; 2-D and 3-D vector lattices x magnitudes {1e-9,1e-6,1,1e4} minus zero, plus a 9^3 lattice mixing magnitudes 1e-6..1e3 per component (near-axis and near-pole vectors): radius = length, azimuth/altitude ranges and values vs f64 atan2, Cartesian->polar/spherical->Cartesian and the reverse order round trips; polar/spherical -> Cartesian components vs f64 trigonometry of the stored angle (2e-6), also for azimuths of +-3, +-100, +-1000, 5000 and -20000 turns. non-trivial = wrapped from outside the interval / round trip verified.",
+        "angles k*7.5 deg for |k|<=492 (+-10 turns; thorough |k|<=20000, +-417 turns, and +-2 turns in 0.005-degree steps; vector lattices 201^2 and 61^3 per magnitude; polar/spherical on a 0.9-degree grid) with +-1 ulp neighbours and {1e-6, 1e4, 1e6, 1e30, 2e36, 5e36, ...} rad: unit conversions in all directions (and every constructor x getter pair over all binades 2^-120..2^127, three mantissas, both signs, judged whenever stored radians and result are representable), sin/cos/sin_cos, operators/clamp/min/max on the magnitude, wrap into 7 intervals x 3 unit spellings (in range without slack, congruent), also for 600 000 (thorough 6 000 000) inputs 80 .. 16 000 revolutions away; Affine/Linear/Lerp trait entry points on angles; 2-D and 3-D vector lattices x magnitudes {1e-9,1e-6,1,1e4} minus zero, plus a 9^3 lattice mixing magnitudes 1e-6..1e3 per component (near-axis and near-pole vectors): radius = length, azimuth/altitude ranges and values vs f64 atan2, Cartesian->polar/spherical->Cartesian and the reverse order round trips; polar/spherical -> Cartesian components vs f64 trigonometry of the stored angle (2e-6), also for azimuths of +-3, +-100, +-1000, 5000 and -20000 turns. non-trivial = wrapped from outside the interval / round trip verified.",
         &["std trigonometry; tolerances 1e-4 relative (coordinates), 1e-4 rad (angles), 1e-6 relative (unit conversions)"])
 }
 
@@ -554,6 +586,7 @@ fn main() {
                 "vec2" => check_vec2(f("x"), f("y"), r),
                 "vec3" => check_vec3(f("x"), f("y"), f("z"), r),
                 "polar" => check_polar_first(f("r"), f("az"), f("alt"), r),
+                "unitx" => check_unit_extreme(c.get("i").unwrap().as_u64().unwrap(), r),
                 "wrapfar" => check_wrap_far(c.get("i").unwrap().as_u64().unwrap(), r),
                 k => machinery_error(&format!("unknown replay kind {k}")),
             }
